@@ -103,20 +103,6 @@ fn fwd(op: &Op, _ctx: &dyn Context, operands: &mut dyn CoordinateSet) -> usize {
 
         // Variant B and/or Laborde
 
-        // The special case
-        if ninety {
-            let u = if lon == lambda_0 {
-                0.0
-            } else {
-                A * (S * c0 + V * s0).atan2(cblon) / B - uc.copysign(latc) * (lonc - lon).signum()
-            };
-            let x = v * cc + u * sc + Ec;
-            let y = u * cc - v * sc + Nc;
-            operands.set_xy(i, x, y);
-            successes += 1;
-            continue;
-        }
-
         // The general case
         let u = A * (S * c0 + V * s0).atan2(cblon) / B - uc.copysign(latc);
         let x = v * cc + u * sc + Ec;
